@@ -586,7 +586,7 @@ def check_case(case, ctx):
 
 def describe(tier):
     return {
-        'rule': 'all transcriptions of length<=L over the 8-symbol alphabet x 6 logit modes x 2 confidence filters x 3 baseline shapes (straight, slanted 4-point, one-pixel) (length L+1..Lr: aligned and too-short mode only); '
+        'rule': 'all transcriptions of length<=L over the 8-symbol alphabet x 8 logit modes x 2 confidence filters x 5 baseline shapes (straight, slanted 4-point, zero-length, one pixel long, right-to-left; the last two for short texts) (length L+1..Lr: aligned and too-short mode only); '
                 'all page structures (0..2 regions from 5 boxes, 0..3 lines each, <=max_lines lines per page, 3 line texts); all Arabic-script '
                 'strings <=La (2 modes); all strings <=Lo over the 7-symbol order alphabet. state = distinct input. Non-trivial: a '
                 'multi-word transcription exported through the alignment branch; a two-region page; an Arabic line; a string the '
